@@ -783,6 +783,59 @@ func rapidRestart(tier string, res *Result) {
 		res.Add(Finding{Kind: "property", Check: "goroutine-leak", Line: line + "; Stop", Impl: fmt.Sprintf("%d server goroutines alive 1 s after Stop", n), Expect: "0", Note: "a server goroutine outlives Stop"})
 	}
 	res.Eval("rapid-restart", true, line)
+	startFailure(res)
+}
+
+// startFailure: a Start that fails (the port is held by somebody else) must leave the server
+// stopped: a later Start binds and serves, Stop afterwards is harmless.
+func startFailure(res *Result) {
+	hold, err := net.Listen("tcp", "127.0.0.1:0")
+	if err != nil {
+		return
+	}
+	addr := hold.Addr().String()
+	h := &scriptedHandler{script: []string{"ok"}, events: &[]string{}, evmu: &sync.Mutex{}}
+	srv, err := modbus.NewServer(&modbus.ServerConfiguration{URL: "tcp://" + addr, Timeout: time.Second, MaxClients: 4, Logger: quietLog}, h)
+	if err != nil {
+		hold.Close()
+		return
+	}
+	line := "Start while the port is held by another socket (must fail); release the port; Start; one request; Stop; Stop"
+	out := guard(func() string {
+		var steps []string
+		e1 := srv.Start()
+		steps = append(steps, "start1="+canonErr(e1))
+		started, _ := srv.VerifSnapshot()
+		steps = append(steps, fmt.Sprintf("started=%v", started))
+		hold.Close()
+		var e2 error
+		for i := 0; i < 50; i++ { // the port may linger for a moment
+			if e2 = srv.Start(); e2 == nil {
+				break
+			}
+			time.Sleep(10 * time.Millisecond)
+		}
+		steps = append(steps, "start2="+canonErr(e2))
+		served := false
+		if c, err := net.DialTimeout("tcp", addr, time.Second); err == nil {
+			c.Write(mbapFrame(1, 0, 1, 3, append(be16b(1), be16b(1)...)))
+			c.SetReadDeadline(time.Now().Add(time.Second))
+			buf := make([]byte, 32)
+			n, _ := c.Read(buf)
+			served = n >= 9
+			c.Close()
+		}
+		steps = append(steps, fmt.Sprintf("served=%v", served))
+		srv.Stop()
+		srv.Stop()
+		steps = append(steps, "stopped")
+		return strings.Join(steps, " ")
+	})
+	res.Eval("start-failure", true, line+" => "+out)
+	if !strings.HasPrefix(out, "start1=io-other started=false start2=nil served=true stopped") {
+		res.Add(Finding{Kind: "property", Check: "start-failure", Line: line, Impl: out, Expect: "start1=<error> started=false start2=nil served=true stopped",
+			Note: "a failed Start left the server in a state from which Start / Stop no longer work"})
+	}
 }
 
 func classKey(cs []string) string {
@@ -870,74 +923,142 @@ func slotProbes(tier string, res *Result) {
 		res.Eval("slot-probe/tls-handshake-failure", true, line)
 	}()
 	// (b)
-	func() {
+	burstProbe(tier, res, false)
+	// (c) MaxClients at and beyond 2^63 (the limit is an unsigned comparison): connections are served
+	for _, mcv := range []uint{1 << 63, ^uint(0) - 1, ^uint(0)} {
 		h := &memHandler{}
-		const max = 4
-		srv, err := modbus.NewServer(&modbus.ServerConfiguration{URL: "tcp://127.0.0.1:0", Timeout: 2 * time.Second, MaxClients: max, Logger: quietLog}, h)
+		srv, err := modbus.NewServer(&modbus.ServerConfiguration{URL: "tcp://127.0.0.1:0", Timeout: 2 * time.Second, MaxClients: mcv, Logger: quietLog}, h)
 		if err != nil || srv.Start() != nil {
 			res.Note("slot probe: tcp server did not start")
-			return
+			continue
 		}
-		defer srv.Stop()
-		addr := srv.VerifListenAddr().String()
-		rounds := scale(tier, 12, 100)
-		for round := 0; round < rounds; round++ {
-			line := fmt.Sprintf("tcp server, MaxClients %d: %d connections dialled back to back (round %d), one request each", max, max, round)
-			var conns []net.Conn
-			// every second round: the accept loop is held at its first connection until the whole
-			// burst is queued, and runs on a single P afterwards, so that it takes all queued
-			// connections before any session goroutine it spawned gets to run
-			gate := make(chan struct{})
-			var once sync.Once
-			pinned := round%2 == 1
-			if pinned {
-				modbus.VerifSetScheduler(func(point string, sock net.Conn) {
-					if point == "accepted" {
-						first := false
-						once.Do(func() { first = true })
-						if first {
-							<-gate
-						}
+		served := 0
+		for i := 0; i < 3; i++ {
+			c, err := net.Dial("tcp", srv.VerifListenAddr().String())
+			if err != nil {
+				continue
+			}
+			c.Write(mbapFrame(uint16(i), 0, 1, 3, append(be16b(i), be16b(1)...)))
+			c.SetReadDeadline(time.Now().Add(time.Second))
+			buf := make([]byte, 32)
+			if n, _ := io.ReadAtLeast(c, buf, 9); n >= 9 {
+				served++
+			}
+			c.Close()
+		}
+		srv.Stop()
+		line := fmt.Sprintf("tcp server, MaxClients %d: three connections, one after the other", mcv)
+		res.Eval(fmt.Sprintf("slot-probe/maxclients/%d", mcv>>62), true, line)
+		if served != 3 {
+			res.Add(Finding{Kind: "property", Check: "maxclients-range", Line: line, Impl: fmt.Sprintf("%d of 3 served", served), Expect: "3 served", Note: "a connection below the configured limit was turned away"})
+		}
+	}
+}
+
+// burstProbe: bursts of MaxClients connections dialled back to back; every second round the accept
+// loop is held at its first connection until the whole burst is queued and then runs on a single P,
+// so that it takes all queued connections before any session goroutine it spawned gets to run.
+// withCuts: all but one connection send a strict prefix of a request and close (C13): the complete
+// request must be answered exactly once, and all slots must come back.
+func burstProbe(tier string, res *Result, withCuts bool) {
+	modbus.VerifSetScheduler(nil)
+	waitPool := func(srv *modbus.ModbusServer, want int, d time.Duration) int {
+		limit := time.Now().Add(d)
+		for {
+			_, n := srv.VerifSnapshot()
+			if n == want || time.Now().After(limit) {
+				return n
+			}
+			time.Sleep(2 * time.Millisecond)
+		}
+	}
+	h := &memHandler{}
+	const max = 4
+	srv, err := modbus.NewServer(&modbus.ServerConfiguration{URL: "tcp://127.0.0.1:0", Timeout: 2 * time.Second, MaxClients: max, Logger: quietLog}, h)
+	if err != nil || srv.Start() != nil {
+		res.Note("burst probe: tcp server did not start")
+		return
+	}
+	defer srv.Stop()
+	addr := srv.VerifListenAddr().String()
+	rounds := scale(tier, 12, 100)
+	for round := 0; round < rounds; round++ {
+		line := fmt.Sprintf("tcp server, MaxClients %d: %d connections dialled back to back (round %d), cuts=%v", max, max, round, withCuts)
+		var conns []net.Conn
+		gate := make(chan struct{})
+		var once sync.Once
+		pinned := round%2 == 1
+		if pinned {
+			modbus.VerifSetScheduler(func(point string, sock net.Conn) {
+				if point == "accepted" {
+					first := false
+					once.Do(func() { first = true })
+					if first {
+						<-gate
 					}
-				})
-			}
-			for i := 0; i < max; i++ {
-				c, err := net.Dial("tcp", addr)
-				if err != nil {
-					break
 				}
-				conns = append(conns, c)
-			}
-			if pinned {
-				time.Sleep(5 * time.Millisecond) // let the kernel queue them
-				prev := runtime.GOMAXPROCS(1)
-				close(gate)
-				time.Sleep(20 * time.Millisecond)
-				runtime.GOMAXPROCS(prev)
-				modbus.VerifSetScheduler(nil)
-			}
-			unanswered := 0
-			for i, c := range conns {
-				c.Write(mbapFrame(uint16(0x100+i), 0, 1, 3, append(be16b(i), be16b(1)...)))
-			}
-			for i, c := range conns {
-				c.SetReadDeadline(time.Now().Add(time.Second))
-				buf := make([]byte, 32)
-				n, _ := io.ReadAtLeast(c, buf, 9)
-				if n < 9 || buf[0] != 0x01 || buf[1] != byte(i) {
-					unanswered++
-				}
-			}
-			for _, c := range conns {
-				c.Close()
-			}
-			left := waitPool(srv, 0, 3*time.Second)
-			if unanswered > 0 || left != 0 {
-				res.Add(Finding{Kind: "property", Check: "burst-slots", Line: line, Impl: fmt.Sprintf("%d of %d connections got no reply of their own; %d still registered after all closed", unanswered, len(conns), left),
-					Expect: "every admitted connection is served on its own socket; pool empty afterwards", Note: "a connection admitted in a burst was not served, or its slot was not released"})
+			})
+		}
+		for i := 0; i < max; i++ {
+			c, err := net.Dial("tcp", addr)
+			if err != nil {
 				break
 			}
+			conns = append(conns, c)
 		}
-		res.Eval("slot-probe/burst", true, fmt.Sprintf("%d bursts of %d connections", rounds, max))
-	}()
+		if pinned {
+			time.Sleep(5 * time.Millisecond) // let the kernel queue them
+			prev := runtime.GOMAXPROCS(1)
+			close(gate)
+			time.Sleep(20 * time.Millisecond)
+			runtime.GOMAXPROCS(prev)
+			modbus.VerifSetScheduler(nil)
+		}
+		h.mu.Lock()
+		callsBefore := len(h.calls)
+		h.mu.Unlock()
+		whole := round % len(maxInt(conns))
+		unanswered, expectReplies := 0, 0
+		for i, c := range conns {
+			f := mbapFrame(uint16(0x100+i), 0, 1, 3, append(be16b(i), be16b(1)...))
+			if withCuts && i != whole {
+				c.Write(f[:1+(round+i)%(len(f)-1)])
+				c.Close()
+				continue
+			}
+			c.Write(f)
+		}
+		for i, c := range conns {
+			if withCuts && i != whole {
+				continue
+			}
+			expectReplies++
+			c.SetReadDeadline(time.Now().Add(time.Second))
+			buf := make([]byte, 32)
+			n, _ := io.ReadAtLeast(c, buf, 9)
+			if n < 9 || buf[0] != 0x01 || buf[1] != byte(i) {
+				unanswered++
+			}
+		}
+		for _, c := range conns {
+			c.Close()
+		}
+		left := waitPool(srv, 0, 3*time.Second)
+		h.mu.Lock()
+		calls := len(h.calls) - callsBefore
+		h.mu.Unlock()
+		if unanswered > 0 || left != 0 || calls != expectReplies {
+			res.Add(Finding{Kind: "property", Check: "burst-slots", Line: line, Impl: fmt.Sprintf("%d of %d complete requests got no reply of their own; %d handler calls; %d still registered after all closed", unanswered, expectReplies, calls, left),
+				Expect: fmt.Sprintf("every complete request answered on its own socket, %d handler calls, pool empty afterwards", expectReplies), Note: "a connection admitted in a burst was not served, or its slot was not released"})
+			break
+		}
+	}
+	res.Eval(fmt.Sprintf("slot-probe/burst/cuts=%v", withCuts), true, fmt.Sprintf("%d bursts of %d connections", rounds, max))
+}
+
+func maxInt(c []net.Conn) []net.Conn {
+	if len(c) == 0 {
+		return make([]net.Conn, 1)
+	}
+	return c
 }
